@@ -3,7 +3,9 @@
 // handleNewPeerMsg, handleDonePeerMsg, writeCFHeadersMsg, rollBackToHeight,
 // NotificationsSinceHeight) on real header stores with generated block trees
 // (valid and invalid forks under random chain parameters) and message
-// schedules, and records the observable state after every operation.
+// schedules, and records the observable state after every operation. With
+// -prop C19 the backlog is also probed at moments inside an operation
+// (probe.go).
 package main
 
 import (
@@ -117,6 +119,7 @@ type env struct {
 	ntfn     chan blockntfns.BlockNtfn
 	stackBuf []byte
 	hung     string
+	fault    *faultStore // the block header store given to the block manager
 }
 
 type clock struct{ t time.Time }
@@ -483,6 +486,10 @@ func genOps(r, r2 *rand.Rand, t *Tree, v *env, nops int, now0 int64) []Op {
 			if r2.Intn(2) == 0 {
 				plan = append(plan, ProbeRec{K: k + 1 + r2.Intn(3)})
 			}
+		}
+		if v.ntfn != nil && r2.Intn(4) == 0 {
+			// and once after the operation has returned (between operations)
+			plan = append(append([]ProbeRec{}, plan...), ProbeRec{K: 1 << 20})
 		}
 		func() {
 			defer func() {
@@ -858,7 +865,14 @@ func runHistory(id int, seed int64, nops int, base string, replay *History) (h H
 	}
 	v.gfh = *gf
 	v.filterTok(*gf)
-	v.bm, err = neutrino.VerifNewBlockManager(*params, e.BS, e.FS, v.ts, ps.MemCap)
+	bsArg := e.BS
+	if *propFlag == "C19" {
+		// the block manager reads block headers through a wrapper that
+		// can make one read of a backlog request fail
+		v.fault = &faultStore{BlockHeaderStore: e.BS}
+		bsArg = v.fault
+	}
+	v.bm, err = neutrino.VerifNewBlockManager(*params, bsArg, e.FS, v.ts, ps.MemCap)
 	if err != nil {
 		panic(err)
 	}
@@ -1032,7 +1046,8 @@ func main() {
 			sb.WriteString(fmt.Sprintf("Definition C%d : bcase := {| bid := %d; bparams := C%d_P; bgfh := %d; bhashes := %s; btrace := %s |}.\n",
 				h.ID, h.ID, h.ID, storeh.FilterBase, c.List(hashes), c.List(items)))
 			if prop == "C19" {
-				sb.WriteString(fmt.Sprintf("Definition M%d : mcase := {| mbase := C%d; mprobes := %s |}.\n", h.ID, h.ID, probesTerm(h)))
+				pt, ft := probesTerm(h)
+				sb.WriteString(fmt.Sprintf("Definition M%d : mcase := {| mbase := C%d; mprobes := %s; mfaults := %s |}.\n", h.ID, h.ID, pt, ft))
 				names = append(names, fmt.Sprintf("M%d", h.ID))
 			} else {
 				names = append(names, fmt.Sprintf("C%d", h.ID))
@@ -1071,6 +1086,7 @@ func main() {
 			}
 			for _, p := range op.Probes {
 				rep.Histogram["backlog_probes"]++
+				rep.Histogram["backlog_requests_with_read_fault"] += len(p.Fs)
 				switch {
 				case p.K < ndisc:
 					rep.Histogram["backlog_probes_inside_reorg"]++
@@ -1105,7 +1121,7 @@ func main() {
 	}
 	rep.Evaluations = n
 	rep.DistinctNontrivial = len(distinct)
-	rep.Rule = "histories on the real blockManager handlers over real header stores: a random block tree (main chain 8-30, up to 4 forks incl. work ties and longer branches, single-rule corruptions: pow, bits, time-old, time-new, version) under random parameters (retarget interval 3-8, no-retarget / min-difficulty / BIP94 flags, 0-3 checkpoints, in-memory window 2..10000) revealed by 1-4 peers in chunks, duplicates, overlaps, unconnected batches, with inv, peer arrivals/departures, filter-header batches and explicit rollbacks; non-trivial = the history contains a rollback/reorganisation (disconnect events) and committed filter headers (connect events); distinct = distinct op-kind signature"
+	rep.Rule = "histories on the real blockManager handlers over real header stores: a random block tree (main chain 8-30, up to 4 forks incl. work ties and longer branches, single-rule corruptions: pow, bits, time-old, time-new, version) under random parameters (retarget interval 3-8, no-retarget / min-difficulty / BIP94 flags, 0-3 checkpoints, in-memory window 2..10000) revealed by 1-4 peers in chunks, duplicates, overlaps, unconnected batches, with inv, peer arrivals/departures, filter-header batches; scenario histories from a separate PRNG stream: (15%) two checkpoints closer together than one headers message with a valid branch leaving the main chain right after the first one, ONE message from the sync peer through both checkpoint heights while the tip is below the first; (-prop C19, 45%) main chain synced, filter headers committed in batches of >= 3 up to the tip, then a longer valid branch forking >= 2 blocks below the tip, then batches on the new branch; with -prop C19 every operation runs against an unbuffered notification channel and NotificationsSinceHeight is probed while the handler is blocked on event k and after it returned (histogram backlog_probes*), also with the n-th FetchHeaderByHeight of the request made to fail through a wrapper of the block header store (backlog_requests_with_read_fault); non-trivial = the history contains a rollback/reorganisation (disconnect events) and committed filter headers (connect events); distinct = distinct op-kind signature"
 	for i := 0; i < n && i < 2; i++ {
 		rep.Samples = append(rep.Samples, hs[i])
 	}
